@@ -1,5 +1,5 @@
 (* C02 — property theorems only.  Each is closed by [exact]/[apply] of a lemma proved in
-   C02_Proofs.v (refutation witnesses by vm_compute) and followed by Print Assumptions.
+   C02_Proofs.v and followed by Print Assumptions.
 
    "For every GET or HEAD request path, however it is spelled, the body returned by the
    file-serving handlers consists only of regular files inside the site root: the file the cleaned
@@ -8,7 +8,8 @@
    listed, and every redirect these handlers issue has a Location starting with exactly one '/'."
 
    The file system is an arbitrary finite tree [fs] (universally quantified), request paths,
-   Accept-Encoding values, hide lists, index-page lists and browse configurations are arbitrary. *)
+   Accept-Encoding values, hide lists, index-page lists, site path prefixes and browse
+   configurations are arbitrary. *)
 Require Import V.Lib V.GoPath V.GoPathProofs V.Gen_C02 V.Gen_C02b V.C02_Model V.C02_Proofs.
 Open Scope N_scope.
 Local Open Scope string_scope.
@@ -142,15 +143,15 @@ Print Assumptions C02_casketfile_never_served.
 (* Everything a listing names is a child of the cleaned directory inside the tree and is not
    hidden. *)
 Theorem C02_listing_inside_root_never_hidden :
-  forall fs hide pages confs m req ae archive kids,
-  browse fs hide pages confs m req ae archive = Listing kids ->
+  forall fs hide pages prefix confs m req ae archive kids,
+  browse fs hide pages prefix confs m req ae archive = Listing kids ->
   forall k, In k kids ->
     In k fs /\ is_child (jail req) (n_path k) = true /\ is_hidden fs hide k = false.
 Proof. exact listing_sound. Qed.
 Print Assumptions C02_listing_inside_root_never_hidden.
 
 Example C02_listing_nonvacuous :
-  match browse fixture_fs gen_c02_hide gen_default_index_pages [{| b_scope := [SLASH]; b_types := [] |}]
+  match browse fixture_fs gen_c02_hide gen_default_index_pages [SLASH] [{| b_scope := [SLASH]; b_types := [] |}]
                0 (bs "//dir/../") [] [] with
   | Listing kids => existsb (fun k => beq (n_path k) (bs "/a.txt")) kids &&
                     negb (existsb (fun k => beq (n_path k) (bs "/Casketfile")) kids)
@@ -162,8 +163,8 @@ Proof. vm_compute. reflexivity. Qed.
 (* Every member of an archive is a node of the tree strictly below the cleaned directory
    (in particular lexically inside it, hence inside the root). *)
 Theorem C02_archive_inside_root :
-  forall fs hide pages confs m req ae archive ms,
-  browse fs hide pages confs m req ae archive = Archive ms ->
+  forall fs hide pages prefix confs m req ae archive ms,
+  browse fs hide pages prefix confs m req ae archive = Archive ms ->
   forall k, In k ms ->
     In k fs /\ is_desc (jail req) (n_path k) = true /\ has_prefix (n_path k) (jail req) = true.
 Proof. exact archive_inside_root. Qed.
@@ -174,8 +175,8 @@ Print Assumptions C02_archive_inside_root.
    member lies below a hidden directory inside the archived one — the walker applies the IsHidden
    test of the listing to every entry and does not descend into a hidden directory. *)
 Theorem C02_archive_never_hidden :
-  forall fs hide pages confs m req ae archive ms,
-  browse fs hide pages confs m req ae archive = Archive ms ->
+  forall fs hide pages prefix confs m req ae archive ms,
+  browse fs hide pages prefix confs m req ae archive = Archive ms ->
   forall k, In k ms ->
     is_hidden fs hide k = false /\
     (forall a, In a fs -> n_dir a = true -> is_desc (jail req) (n_path a) = true ->
@@ -184,7 +185,7 @@ Proof. exact archive_never_hidden. Qed.
 Print Assumptions C02_archive_never_hidden.
 
 Example C02_archive_never_hidden_nonvacuous :
-  match browse fixture_fs gen_c02_hide gen_default_index_pages [{| b_scope := [SLASH]; b_types := gen_archive_types |}]
+  match browse fixture_fs gen_c02_hide gen_default_index_pages [SLASH] [{| b_scope := [SLASH]; b_types := gen_archive_types |}]
                0 [SLASH] [] (bs "zip") with
   | Archive ms => map (fun p => existsb (fun k => beq (n_path k) (bs p)) ms)
                       ["/a.txt"; "/dir/sub/d.txt"; "/Casketfile"; "/links/hard-casket"; "/secret.txt"; "/hsib.txt.gz";
@@ -194,11 +195,12 @@ Example C02_archive_never_hidden_nonvacuous :
 Proof. vm_compute. reflexivity. Qed.
 
 (* ---- redirects ------------------------------------------------------------------------------ *)
-(* Every redirect of the static file server (site without path prefix, rooted request path) is a
-   307 whose Location starts with exactly one '/', and contains no backslash right after it. *)
+(* Every redirect of the static file server — on a site without a path prefix ([prefix] = "/") or
+   with one (the prefix is put back in front of the path the handlers saw) — is a 307 whose Location
+   starts with exactly one '/', and contains no backslash right after it. *)
 Theorem C02_static_redirect_same_origin :
-  forall fs hide pages m req ae code loc,
-  rooted req -> serve_file fs hide pages [SLASH] m req ae = Redirect code loc ->
+  forall fs hide pages prefix m req ae code loc,
+  rooted prefix -> rooted req -> serve_file fs hide pages prefix m req ae = Redirect code loc ->
   code = 307 /\ one_slash loc = true /\ same_origin loc = true.
 Proof. exact static_redirect. Qed.
 Print Assumptions C02_static_redirect_same_origin.
@@ -209,19 +211,26 @@ Example C02_static_redirect_nonvacuous :
   = [Redirect 307 (bs "/"); Redirect 307 (bs "/a.txt"); Redirect 307 (bs "/dir/")].
 Proof. vm_compute. reflexivity. Qed.
 
+(* the site 127.0.0.1/pre: GET /pre//evil.example/.. reaches the handlers as //evil.example/.. *)
+Example C02_static_redirect_prefix_site_nonvacuous :
+  map (fun p => serve_file fixture_fs gen_c02_hide gen_default_index_pages (bs "/pre") 0 (bs p) [])
+      ["//evil.example/.."; "//dir"; "//evil.example/../a.txt/"; "/dir/sub"]%string
+  = [Redirect 307 (bs "/pre/"); Redirect 307 (bs "/pre/dir/"); Redirect 307 (bs "/pre/a.txt"); Redirect 307 (bs "/pre/dir/sub/")].
+Proof. vm_compute. reflexivity. Qed.
+
 (* browse: every redirect it issues (its own add-a-slash redirect, which trims a leading "//" like
    the static file server's, or the static file server's behind it) stays on the origin, however
    the request path is spelled. *)
 Theorem C02_browse_redirect_same_origin :
-  forall fs hide pages confs m req ae archive code loc,
-  rooted req ->
-  browse fs hide pages confs m req ae archive = Redirect code loc ->
+  forall fs hide pages prefix confs m req ae archive code loc,
+  rooted prefix -> rooted req ->
+  browse fs hide pages prefix confs m req ae archive = Redirect code loc ->
   one_slash loc = true /\ same_origin loc = true.
 Proof. exact browse_redirect. Qed.
 Print Assumptions C02_browse_redirect_same_origin.
 
 Example C02_browse_redirect_nonvacuous :
-  map (fun p => browse fixture_fs gen_c02_hide gen_default_index_pages [{| b_scope := [SLASH]; b_types := [] |}]
+  map (fun p => browse fixture_fs gen_c02_hide gen_default_index_pages [SLASH] [{| b_scope := [SLASH]; b_types := [] |}]
                        0 (bs p) [] [])
       ["/x/..//dir/sub"; "//evil.example/.."; "///evil.example/../dir"; "/\evil.example/../dir"]%string
   = [Redirect 301 (bs "/dir/sub/"); Redirect 301 (bs "/"); Redirect 301 (bs "/dir/"); Redirect 301 (bs "/dir/")].
@@ -246,14 +255,14 @@ Theorem C02_site_sound :
                            has_prefix (n_path k) (jail (q_path r)) = true /\
                            is_hidden (s_fs s) (s_hide s) k = false
   | Redirect code loc =>
-      rooted (q_path r) -> one_slash loc = true /\ same_origin loc = true
+      rooted (s_prefix s) -> rooted (q_path r) -> one_slash loc = true /\ same_origin loc = true
   | Status _ => True
   end.
 Proof. exact site_sound. Qed.
 Print Assumptions C02_site_sound.
 
 Example C02_site_sound_nonvacuous :
-  map (fun p => match handle (mksite (bs "/srv/www") (bs "/srv/www/Casketfile") [SLASH] gen_archive_types) (mkreq 0 (bs p) (bs "br") []) with
+  map (fun p => match handle (mksite (bs "/srv/www") (bs "/srv/www/Casketfile") [SLASH] [SLASH] gen_archive_types) (mkreq 0 (bs p) (bs "br") []) with
                 | Serve n _ => n_id n | Listing k => 1000 + N.of_nat (length k) | Redirect c _ => c
                 | Status c => c | Archive _ => 2000 end)
       ["/a.txt"; "/dir/"; "/dir"; "/secret.txt"; "/Casketfile/."]
